@@ -6,6 +6,7 @@ import warnings
 import ast
 from collections import OrderedDict
 from functools import singledispatch, partial
+from threading import RLock
 from itertools import chain, cycle
 from traceback import format_exception
 from types import (
@@ -412,6 +413,11 @@ def _run_pretty(pretty_fn, value, ctx, trailing_comment=None):
 
 _DEFERRED_DISPATCH_BY_NAME = {}
 
+# Guards the printer registries (deferred, predicate and singledispatch):
+# values may be printed from several threads, and the first print of a
+# type with a deferred printer registers it.
+_REGISTRY_LOCK = RLock()
+
 
 def get_deferred_key(type):
     return type.__module__ + '.' + type.__qualname__
@@ -438,21 +444,23 @@ def pretty_python_value(value, ctx):
 
     value, comment, trailing_comment = unwrap_comments(value)
 
-    is_registered(
-        type(value),
-        check_superclasses=True,
-        check_deferred=True,
-        register_deferred=True
-    )
+    with _REGISTRY_LOCK:
+        is_registered(
+            type(value),
+            check_superclasses=True,
+            check_deferred=True,
+            register_deferred=True
+        )
+        printer = pretty_dispatch.dispatch(type(value))
 
     if trailing_comment:
-        doc = pretty_dispatch(
+        doc = printer(
             value,
             ctx,
             trailing_comment=trailing_comment
         )
     else:
-        doc = pretty_dispatch(
+        doc = printer(
             value,
             ctx
         )
@@ -535,17 +543,18 @@ def register_pretty(type=None, predicate=None):
                 )
             )
 
-        if type:
-            if isinstance(type, str):
-                # We don't wrap this with _run_pretty,
-                # so that when we register this printer with an actual
-                # class, we can call register_pretty(cls)(fn)
-                _DEFERRED_DISPATCH_BY_NAME[type] = fn
+        with _REGISTRY_LOCK:
+            if type:
+                if isinstance(type, str):
+                    # We don't wrap this with _run_pretty,
+                    # so that when we register this printer with an actual
+                    # class, we can call register_pretty(cls)(fn)
+                    _DEFERRED_DISPATCH_BY_NAME[type] = fn
+                else:
+                    pretty_dispatch.register(type, partial(_run_pretty, fn))
             else:
-                pretty_dispatch.register(type, partial(_run_pretty, fn))
-        else:
-            assert callable(predicate)
-            _PREDICATE_REGISTRY.append((predicate, fn))
+                assert callable(predicate)
+                _PREDICATE_REGISTRY.append((predicate, fn))
         return fn
     return decorator
 
@@ -562,6 +571,22 @@ def is_registered(
             'register_deferred may not be True when check_deferred is False'
         )
 
+    with _REGISTRY_LOCK:
+        return _is_registered(
+            type,
+            check_superclasses=check_superclasses,
+            check_deferred=check_deferred,
+            register_deferred=register_deferred
+        )
+
+
+def _is_registered(
+    type,
+    *,
+    check_superclasses,
+    check_deferred,
+    register_deferred
+):
     if type in pretty_dispatch.registry:
         return True
 
